@@ -78,11 +78,9 @@ class Check:
         # the Print Assumptions output depends only on /verif's own Coq sources (never on /repo): cache it per
         # property, keyed by the contents of every .v file, so that an unchanged development is not re-traversed
         hh = hashlib.sha256(self.pid.encode())
-        for root, _, files in sorted(os.walk(os.path.join(COQ, "theories"))):
-            for f in sorted(files):
-                if f.endswith(".v"):
-                    hh.update(f.encode())
-                    hh.update(open(os.path.join(root, f), "rb").read())
+        for f in self.coq_closure(srcs):
+            hh.update(os.path.basename(f).encode())
+            hh.update(open(f, "rb").read())
         pa_cache = os.path.join(COQ, ".pa_%s_%s.txt" % (self.pid, hh.hexdigest()[:20]))
         cached = open(pa_cache).read() if os.path.exists(pa_cache) else None
         for src in srcs:
@@ -136,14 +134,46 @@ class Check:
             ok = self.coqchk() and ok
         return ok
 
+    def coq_closure(self, srcs):
+        """The .v files the given sources depend on (transitively, themselves included), from the dependency file coqdep
+        wrote for the last make (.Makefile.d).  When that file is missing or does not know one of the sources, every .v
+        file of the development is returned (the conservative key)."""
+        allv = []
+        for root, _, files in sorted(os.walk(os.path.join(COQ, "theories"))):
+            allv += [os.path.join(root, f) for f in sorted(files) if f.endswith(".v")]
+        deps = {}
+        try:
+            for line in open(os.path.join(COQ, ".Makefile.d")):
+                if ":" not in line:
+                    continue
+                lhs, rhs = line.split(":", 1)
+                tg = [t for t in lhs.split() if t.endswith(".vo")]
+                if not tg:
+                    continue
+                deps[tg[0][:-1]] = [d[:-1] for d in rhs.split() if d.endswith(".vo") and d.startswith("theories/")]
+        except OSError:
+            return allv
+        todo = [os.path.relpath(x, COQ) for x in srcs]
+        seen = []
+        while todo:
+            v = todo.pop()
+            if v in seen:
+                continue
+            if v not in deps or not os.path.exists(os.path.join(COQ, v)):
+                return allv
+            seen.append(v)
+            todo += deps[v]
+        return sorted(os.path.join(COQ, v) for v in seen)
+
     def coqchk(self):
         """Independent re-check of this property's compiled theorem files and everything they depend on
         (coqchk, thorough tier); cached by a stamp keyed on the property and the contents of all .v files."""
         h = hashlib.sha256(self.pid.encode())
-        for root, _, files in sorted(os.walk(os.path.join(COQ, "theories"))):
-            for f in sorted(files):
-                if f.endswith(".v"):
-                    h.update(open(os.path.join(root, f), "rb").read())
+        props_dir0 = os.path.join(COQ, "theories/props")
+        mine = sorted(os.path.join(props_dir0, f) for f in os.listdir(props_dir0)
+                      if re.fullmatch(re.escape(self.pid) + r"(_[A-Za-z0-9]+)?\.v", f))
+        for f in self.coq_closure(mine):
+            h.update(open(f, "rb").read())
         stamp = os.path.join(COQ, ".coqchk_%s_%s" % (self.pid, h.hexdigest()[:16]))
         if os.path.exists(stamp):
             self.cov["coqchk"] = open(stamp).read()
